@@ -71,8 +71,10 @@ func randomConn(r *hx.Rand, ccap int) string {
 			switch x := r.Intn(100); {
 			case x < 40:
 				acts = append(acts, fmt.Sprintf("j%d", 1+r.Intn(ccap+1)))
-			case x < 60:
+			case x < 55:
 				acts = append(acts, "fg")
+			case x < 60:
+				acts = append(acts, "fn")
 			case x < 80:
 				acts = append(acts, fmt.Sprintf("st%d", r.Intn(2)))
 			default:
@@ -140,6 +142,8 @@ func main() {
 		// fallbacks: server cache lost, forged id, stale id from the other server, suite no longer enabled
 		hd(4, 4, honest(0), conn("sl", 0, 0, both, both, "ok"), honest(0))
 		hd(4, 4, conn("fg", 0, 0, both, both, "ok"), honest(0))
+		hd(4, 4, conn("fn", 0, 0, both, both, "ok"), honest(0))
+		hd(4, 4, conn("fg", 0, 0, both, both, "sf"), honest(0))
 		hd(4, 4, honest(1), conn("st1", 0, 0, both, both, "ok"), honest(1), honest(0))
 		hd(4, 4, honest(0), conn("-", 0, 0, cbc, both, "ok"), conn("-", 0, 0, both, cbc, "ok"), honest(0))
 		hd(4, 4, conn("-", 0, 0, gcm, both, "ok"), conn("-", 0, 0, both, cbc, "ok"), conn("-", 0, 0, gcm, cbc, "ok"))
